@@ -136,10 +136,11 @@ def from_hif_dict(data, nodetype=None, edgetype=None):
             else:
                 attr = {}
 
+            # attributes are set through a mapping, not as keyword arguments: an
+            # attribute may be called "node" or "self"
             if n not in H._node:
-                H.add_node(n, **attr)
-            else:
-                H.set_node_attributes({n: attr})
+                H.add_node(n)
+            H.set_node_attributes({n: attr})
 
     # import edge attributes if they exist
     if "edges" in data:
@@ -150,9 +151,8 @@ def from_hif_dict(data, nodetype=None, edgetype=None):
             else:
                 attr = {}
             if e not in H._edge:
-                H.add_edge(_empty_edge(network_type), e, **attr)
-            else:
-                H.set_edge_attributes({e: attr})
+                H.add_edge(_empty_edge(network_type), e)
+            H.set_edge_attributes({e: attr})
 
     if network_type == "asc":
         H = SimplicialComplex(H)
